@@ -252,6 +252,10 @@ def c01(tier):
                             "date": (k * 2654435761) % 65536, "time": (k * 40503) % 65536},
             {"op": "Write", "data": {"len": 2000 + k, "seed": k, "kind": "text"}}, {"op": "Finish"}]})
     run_writer_programs(rep, wd, scs, "roundtrip")
+    cmp_events = [e for e in vlib.read_ndjson(os.path.join(wd, "roundtrip-trace.ndjson")) if e.get("ev") == "Compare"]
+    rep.notes["finish_vs_drop_comparisons"] = {"made": len(cmp_events), "both_completed": sum(1 for e in cmp_events if e.get("both"))}
+    if cmp_events and not any(e.get("both") for e in cmp_events):
+        raise ToolTrouble("no finish-vs-drop comparison had both runs complete")
     return rep.finish("model_checking",
                       "seeded random well-behaved programs (files/dirs/symlinks/aligned/extra/encrypted entries, all "
                       "methods and documented levels, random DOS time words, permission bits, comments, names incl. "
